@@ -97,6 +97,14 @@ def full_lookup(n_samp, n_treat, rng):
         d[(c, -1)] = 1.0
         for t in range(n_treat):
             d[(c, t)] = float(rng.uniform(0.05, 1.2))
+    # the table is a mapping: the order in which its keys were inserted (one add_observations call gives ascending
+    # keys, several calls or a hand-built table do not) is not part of its value
+    mode = (n_samp * 31 + n_treat) % 3
+    if mode == 1:
+        d = dict(reversed(list(d.items())))
+    elif mode == 2:
+        it = list(d.items())
+        d = dict(it[1::2] + it[0::2])
     return d
 
 
